@@ -339,6 +339,15 @@ def explore_alignment(spec, acc):
                                 w1 = want["s1"].replace("-", "")
                                 if g1 != w1:
                                     acc.fail(f"alignment feature slice: residues of the annotated row differ from the retained feature residues [{flags}; {strand} strand]", case, {"got": got, "want": want})
+                                else:
+                                    # projection onto the other row: the columns of the retained feature residues
+                                    # (columns where the annotated row has a gap are not part of the feature)
+                                    w2 = "".join(rows["s2"][c] for c in keep if s1[c] != "-")
+                                    if strand == "-":
+                                        w2 = rc(w2)
+                                    g2 = got.get("s2", "").replace("?", "")
+                                    if g2 != w2:
+                                        acc.fail(f"alignment feature slice: the other row is not the columns of the feature [{flags}; {strand} strand]", case, {"got": got, "want_other_row": w2})
                                 # degapping the (sliced, reversed) alignment gives a collection whose sequences are views of the
                                 # annotated parents: the feature must still denote the same residues
                                 try:
